@@ -20,9 +20,9 @@ from sa.loader import AnalysisError
 from sa import regexast, sigdata
 from sa import strterm as T
 from rules.C10 import (_const_regex, armor_tree, flags_of, unarmor_call, verdict_for_label, _receiver, _own_params, _returned_entry,   # noqa: F401
-                       _ascii_oracle, _consumes)
+                       _ascii_oracle, _consumes, require_traceable_label)
 
-noinline = lambda f: False  # noqa: E731
+from rules.C10 import noinline  # noqa: E402,F401
 
 
 # ------------------------------------------------------------------------------------------------ substitutions as values
@@ -403,6 +403,7 @@ def cleartext_reader(rep, prog, M):
     ua = unarmor_call(prog, pf)
     group = "%s['cleartext']" % ua
     v, outs = verdict_for_label(prog, pf, ua, 'SIGNATURE')
+    require_traceable_label('PGPMessage', {'SIGNATURE': (v, outs), 'MESSAGE': verdict_for_label(prog, pf, ua, 'MESSAGE')})
     ok = bool(outs)
     found = []
     for s in outs:
